@@ -418,7 +418,7 @@ func ruleWALRELEASEONFREE(p *Program, rep *Report) {
 	blockedEdges := map[cfgEdge]bool{}
 	for _, b := range fn.Blocks {
 		for _, ins := range b.Instrs {
-			if c, ok := ins.(*ssa.Call); ok && v.releasesWAL(c.Common().StaticCallee()) {
+			if c, ok := ins.(*ssa.Call); ok && (v.releasesWAL(c.Common().StaticCallee()) || v.helperReleasesWhenRedirected(c)) {
 				blocked[b] = true
 			}
 		}
@@ -723,4 +723,65 @@ func storesField(f *ssa.Function, fld *types.Var) bool {
 		}
 	}
 	return false
+}
+
+// helperReleasesWhenRedirected: the call hands the page's id and ondiskID to a helper in which every return
+// path either releases the overwrite page (freeWALID-like call) or passes the edge on which the two ids are
+// equal — the free-and-release pair extracted into one function.
+func (v *pageVocab) helperReleasesWhenRedirected(c *ssa.Call) bool {
+	h := c.Common().StaticCallee()
+	if h == nil || fnPkgPath(h) != modPath || len(h.Blocks) == 0 {
+		return false
+	}
+	idIdx, odIdx := -1, -1
+	for i, a := range c.Common().Args {
+		switch loadedField(a) {
+		case v.fID:
+			idIdx = i
+		case v.fOndisk:
+			odIdx = i
+		}
+	}
+	if idIdx < 0 || odIdx < 0 || idIdx >= len(h.Params) || odIdx >= len(h.Params) {
+		return false
+	}
+	pid, pod := ssa.Value(h.Params[idIdx]), ssa.Value(h.Params[odIdx])
+	blocked := map[*ssa.BasicBlock]bool{}
+	blockedEdges := map[cfgEdge]bool{}
+	any := false
+	for _, b := range h.Blocks {
+		for _, ins := range b.Instrs {
+			if cc, ok := ins.(*ssa.Call); ok && v.releasesWAL(cc.Common().StaticCallee()) {
+				blocked[b] = true
+				any = true
+			}
+		}
+		if ifi, ok := b.Instrs[len(b.Instrs)-1].(*ssa.If); ok {
+			for _, pol := range []bool{true, false} {
+				d := condDNF(ifi.Cond, pol, 0, map[ssa.Value]bool{})
+				if len(d) > 0 && d.every(func(cj conj) bool {
+					return cj.has(func(a atom) bool {
+						op, x, y, isCmp := cmpAtom(a)
+						return isCmp && op == token.EQL && ((stripConv(x) == pid && stripConv(y) == pod) || (stripConv(x) == pod && stripConv(y) == pid))
+					})
+				}) {
+					succ := b.Succs[1]
+					if pol {
+						succ = b.Succs[0]
+					}
+					blockedEdges[cfgEdge{b, succ}] = true
+				}
+			}
+		}
+	}
+	if !any {
+		return false
+	}
+	reach := reachableAvoiding(h.Blocks[0], blocked, blockedEdges)
+	for _, b := range h.Blocks {
+		if _, isRet := b.Instrs[len(b.Instrs)-1].(*ssa.Return); isRet && reach[b] {
+			return false
+		}
+	}
+	return true
 }
